@@ -357,6 +357,17 @@ def gen_huge_int_scheme(rng: random.Random) -> dict:
     return {"B": [0, b1, near(), b3, b4, near()], "T": [t0, t0, 0, t3, t3, near()], "family": "huge-near-equal-ints"}
 
 
+def gen_mixed_magnitude_scheme(rng: random.Random) -> dict:
+    """Int penalties spanning six orders of magnitude in one scheme (1 next to 10**6): every cost is an exact
+    integer, while an absolute-plus-relative tolerance scaled on the large costs swallows the small ones."""
+    big = 10 ** rng.choice([3, 6, 6])
+    v = lambda: rng.choice([0, 1, 1, 2, big, big])
+    b3, b4 = sorted([v(), v()])
+    t0, t3 = v(), v()
+    return {"B": [0, rng.choice([1, 1, 2, big]), v(), b3, b4, v()], "T": [t0, t0, 0, t3, t3, v()],
+            "family": "mixed-magnitude-ints"}
+
+
 def gen_mutation(rng: random.Random) -> dict:
     """An in-place edit of a shared Dataset between two operations of a history."""
     return {"mutate": rng.choice(["remove_elements", "remove_empty", "remove_empty", "remove_rate"]),
